@@ -142,6 +142,15 @@ fn history_for_length(l: u64, r: &mut Rng) -> Vec<Op> {
         if r.chance(1, if big { 2 } else { 6 }) {
             ops.push(Op::Reopen);
         }
+        // clears flush the header without a new signature being made: the stored one must
+        // still be the one for the current tree (also right after a reopen with pending entries)
+        if r.chance(1, 5) {
+            let s = r.below(n);
+            ops.push(Op::Clear(s, s + 1));
+            if r.chance(1, 2) {
+                ops.push(Op::Clear(r.below(n), n + 1));
+            }
+        }
     }
     ops.push(Op::Reopen);
     ops
@@ -150,6 +159,7 @@ fn history_for_length(l: u64, r: &mut Rng) -> Vec<Op> {
 fn writer_case(ctx: &mut Ctx, ops: &[Op], key_seed: u64, every_op: bool) -> Result<u64, (usize, Fail)> {
     let world = World::new();
     let mut sut = Sut::create(key_seed, world.clone(), CacheMode::None).map_err(|f| (0, f))?;
+    sut.plain_reopen_every = 2;
     let pk = sut.key.verifying_key().to_bytes();
     let mut reft = RefTree::default();
     let mut blocks: Vec<Vec<u8>> = vec![];
@@ -203,7 +213,21 @@ fn session_case(ctx: &mut Ctx, r: &mut Rng) -> Result<(), Fail> {
             let rl = sess.pair.replica.model.length();
             let wl = sess.pair.writer.model.length();
             let plan = crate::repl::random_plan(r, rl, wl, &sess.pair.writer.model, &sess.pair.replica.model);
-            let res = sess.request(ctx, &plan).map_err(|f| ops::fail(format!("scenario:{}", f.sig), f.detail))?;
+            if plan == crate::repl::Plan::default() {
+                continue;
+            }
+            // the writer sometimes closes and reopens (with unflushed entries) before serving
+            if r.chance(1, 5) {
+                sess.pair.writer.reopen().map_err(|f| ops::fail(format!("scenario:{}", f.sig), f.detail))?;
+                ctx.count("writer_reopened_before_serving");
+            }
+            let req = sess.pair.replica.make_request(&plan).map_err(|f| ops::fail(format!("scenario:{}", f.sig), f.detail))?;
+            let made = crate::repl::create_proof(sess.pair.writer.core(), &req);
+            let res = match made {
+                Ok(Ok(Some(p))) => Some(crate::repl::RoundResult::Applied(p)),
+                Ok(Ok(None)) => None,
+                other => return Err(ops::fail("scenario:create_proof", format!("{:?}", other.map(|x| x.map(|_| ()).map_err(|e| e.to_string()))))),
+            };
             if let Some(crate::repl::RoundResult::Applied(p)) = res {
                 let rp = to_rproof(&p);
                 // each carried node equals the reference node of its index
@@ -243,6 +267,14 @@ fn session_case(ctx: &mut Ctx, r: &mut Rng) -> Result<(), Fail> {
                 }
                 for (i, s, h) in v.learned {
                     known.insert(i, (s, h));
+                }
+                // only now the replica applies it (its acceptance is C03's business)
+                match crate::repl::apply_proof(sess.pair.replica.core(), &p) {
+                    Ok(Ok(true)) => {
+                        let w = sess.pair.writer.model.clone();
+                        sess.pair.replica.model_accept(&p, &w);
+                    }
+                    other => return Err(ops::fail("scenario:replica-refused", format!("{:?}", other.map(|x| x.map_err(|e| e.to_string()))))),
                 }
             }
         }
